@@ -32,7 +32,7 @@ def gen(rng, ctx):
     ng = rng.randint(2, 10 if not big else 18)
     shape = rng.choice(["tree", "diamond", "random", "random", "multi", "wide", "chain"])
     sup = rng.random() < 0.4
-    cd = G.rand_circuit(rng, ni, ng, max_fanin=4, p_wide=0.25, shape=shape, p_const=0.1, n_outputs=1 if sup else rng.randint(1, 4), p_input_output=0.03, ensure_loaded=not sup)
+    cd = G.rand_circuit(rng, ni, ng, max_fanin=rng.choice([4, 4, 4, 8]), p_wide=0.25, shape=shape, allow_x=rng.random() < 0.15, p_const=0.1, n_outputs=1 if sup else rng.randint(1, 4), p_input_output=0.03, ensure_loaded=not sup)
     if sup and rng.random() < 0.08:
         # several outputs with construct_supercircuit=True: the library must refuse, or be right
         cd2 = G.rand_circuit(rng, ni, ng, max_fanin=3, shape=rng.choice(["chain", "random"]), n_outputs=rng.randint(2, 3), p_input_output=0.0, p_const=0.0)
@@ -250,9 +250,10 @@ def check(case, ctx):
     ins = sorted(net.inputs())
     if len(ins) > 12:
         return
-    k = len(ins)
-    vals, _ = sim.functions(net, ins)
-    pos = {x: sim.var_bits(i, k) for i, x in enumerate(ins)}
+    xs = sorted(n for n, t in net.types.items() if t == "x")  # unknown-value constants: opaque sources with their own name
+    k = len(ins) + len(xs)
+    vals, _ = sim.functions(net, ins + xs)
+    pos = {x: sim.var_bits(i, k) for i, x in enumerate(ins + xs)}
     mask = (1 << (1 << k)) - 1
     memo = {}
     sgnet = {name: Net.of(s) for name, s in smap.items()}
@@ -271,6 +272,10 @@ def check(case, ctx):
             v = 0
         elif t == "1":
             v = mask
+        elif t == "x":
+            if n not in pos:
+                raise ValueError(f"unknown-value constant {n!r} is not a node of the original circuit")
+            v = pos[n]
         elif t == "bb_output":
             inst, pin = n.split(".", 1)
             s = sgnet[inst]
@@ -280,6 +285,7 @@ def check(case, ctx):
                 if len(drv) != 1:
                     raise ValueError(f"pin {inst}.{i} has drivers {drv}")
                 fixed[i] = ev(drv[0])
+            fixed.update({x: pos[x] for x in xs if s.types.get(x) == "x"})
             sv, _ = sim.functions(s, [], fixed=fixed, k=k)
             if pin not in sv:
                 raise ValueError(f"supergate {inst} has no node {pin!r}")
@@ -302,7 +308,7 @@ def check(case, ctx):
         if got != vals[o]:
             d = got ^ vals[o]
             j = (d & -d).bit_length() - 1
-            ctx.violation("supercircuit_function", f"super-circuit with supergates substituted gives {o!r}={sim.bit_at(got, j)} instead of {sim.bit_at(vals[o], j)} under {sim.index_valuation(ins, j)}")
+            ctx.violation("supercircuit_function", f"super-circuit with supergates substituted gives {o!r}={sim.bit_at(got, j)} instead of {sim.bit_at(vals[o], j)} under {sim.index_valuation(ins + xs, j)}")
             return
 
 
